@@ -24,7 +24,7 @@ DEFAULT_PROFILE = {
         'review': 2, 'comment': 3, 'delete_comment': 1,
         'status': 8, 'stale_status': 2,
         'pr_event': 8, 'child_event': 2, 'commit_event': 6,
-        'admin': 1, 'decline': 0.5, 'w_commit': 0.5,
+        'admin': 1, 'decline': 0.5, 'w_commit': 0.5, 'delete_source': 0.3,
     },
     'comments': ['@robot bypass_build_status', '@robot bypass_peer_approval',
                  '/wait', '@robot status', '/help', '@robot: unknown_word',
@@ -32,7 +32,7 @@ DEFAULT_PROFILE = {
                  '@robot create_pull_requests', '/no_octopus',
                  '/after_pull_request=1'],
     'admin': ['rebuild_queues', 'delete_queues', 'force_merge_queues',
-              'create_branch', 'delete_branch'],
+              'create_branch', 'delete_branch', 'eval_pr'],
     'hotfix_dst': True,
 }
 
@@ -216,8 +216,19 @@ class Gen:
             d = self.dests()
             if d:
                 self.run('delete_branch', self.rng.choice(d))
+        elif kind == 'eval_pr':
+            pr = self._pick_pr()
+            self.run('eval_pr', pr['id'] if pr and self.rng.random() < 0.9
+                     else 4242)
         else:
             self.run(kind)
+
+    def m_delete_source(self):
+        """the author deletes the source branch of an open pull request"""
+        pr = self._pick_pr()
+        if pr and pr['src'] in self.w.refs()[0]:
+            self.w.do('delete_branch', branch=pr['src'])
+            self.run('pr', pr['id'])
 
     def m_decline(self):
         pr = self._pick_pr()
@@ -558,6 +569,18 @@ class Gen:
         if plain:
             self.run('commit', 'tip:' + self.rng.choice(plain))
 
+    def op_queue_conflict(self):
+        """two PRs that only conflict with each other: the second one cannot
+        enter the queue behind the first"""
+        dests = [d for d in self.dests() if not d.startswith('hotfix/')]
+        dst = dests[0]
+        a = self.new_pr(dst, conflict=True, evaluate=False)
+        b = self.new_pr(dst, conflict=True, evaluate=False)
+        self.queue_pr(a)
+        self.queue_pr(b)
+        self.m_forward(b, 2)
+        self.m_forward(a, 3)
+
 
 OPENERS = {
     'two_prs_same_base': Gen.op_two_prs_same_base,
@@ -565,6 +588,7 @@ OPENERS = {
     'three_queued': Gen.op_three_queued,
     'dest_moves_while_open': Gen.op_dest_moves_while_open,
     'backport': Gen.op_backport,
+    'queue_conflict': Gen.op_queue_conflict,
     'manual_on_middle_w': Gen.op_manual_on_middle_w,
     'conflict_on_later_target': Gen.op_conflict_on_later_target,
     'batch_merge': Gen.op_batch_merge,
